@@ -230,6 +230,8 @@ def run_check(engine_name, prop, tier, seed):
         if fn.startswith(prop + "-") and not os.environ.get("VERIF_KEEP_REPLAYS"):
             os.unlink(os.path.join(rdir, fn))
 
+    prep = eng.prepare(prop, tier, seed) if hasattr(eng, "prepare") else None
+
     selftest = determinism_selftest(engine_name, prop, tier, seed, plan.get("selftest", 0))
     if not selftest["ok"]:
         print("HARNESS-ERROR determinism self-test failed: %r" % (selftest,))
@@ -388,6 +390,8 @@ def run_check(engine_name, prop, tier, seed):
         "workers": WORKERS,
         "sqlglot_root": common.sqlglot_root(),
     }
+    if prep is not None:
+        coverage["prepare"] = prep
     if hasattr(eng, "extra_coverage"):
         coverage.update(eng.extra_coverage(good))
     ev = {
